@@ -246,3 +246,28 @@ PROPS["C13"] = {
     "level_text": "Bounded model checking by symbolic execution: operation sequences and handle choices are enumerated by forking, values and indices are symbolic; container/list is the executable oracle for DList, a slice model for SList. The solver's contribution here is the index arithmetic and feasibility; most of the state space is pointer shape, explored exhaustively within the bound.",
     "level_note": "Trusted: go/ssa, gosym (witness-validated), z3. Little scalar data: this check is closer to exhaustive bounded exploration of the real code than to solver reasoning, and says so.",
 }
+
+# ------------------------------------------------------------------------------------------- C04
+c04 = "vh/c04."
+PROPS["C04"] = {
+    "patterns": ["./c04"],
+    "level": "model_checking",
+    "quick": [
+        J(c04 + "SliceOps", maxn=4, ops=2),
+        J(c04 + "SliceOps", maxn=4, ops=0, arbitrary=1),
+        J(c04 + "HeapOps", init=3, ops=3, covers=["re-init"]),
+        J(c04 + "GenericOps", maxn=4, ops=2),
+    ],
+    "thorough": [
+        J(c04 + "SliceOps", maxn=5, ops=3),
+        J(c04 + "SliceOps", maxn=6, ops=0, arbitrary=1),
+        J(c04 + "HeapOps", init=4, ops=4, covers=["re-init"], cfg={"MaxPaths": 60000000}),
+        J(c04 + "GenericOps", maxn=5, ops=3),
+    ],
+    "bounds": {"quick": "comparator = comparison of arbitrary uninterpreted keys (every strict weak order incl. ties between different values); Slice: every valid heap of <= 4 symbolic elements (and FromSlice of every arbitrary slice <= 4), then 2 arbitrary operations Push/Pop/Peek/Remove(i)/Fix(i)/PopAll with symbolic 64-bit indices; Heap: 0..3 pushed elements + a foreign heap, 3 arbitrary operations Push/Pop/Peek/Remove(h)/Fix(h)/Init/PopAll over every choice of live, stale and foreign handles; generic Init/Push/Pop/Remove/Fix on a harness container of <= 4 elements, 2 operations",
+               "thorough": "up to 5-6 elements, 3-4 operations"},
+    "outside": ["PushElement of an element that is already in a heap (not in the property)", "longer operation sequences"],
+    "assumptions": ["the comparator is a strict weak order (it is key(a) < key(b) for an arbitrary key function)"],
+    "level_text": "Bounded symbolic model checking of heapz: element values are symbolic and the order is an uninterpreted key comparison, so heap order, minimality of Pop/Peek, multiset preservation and handle stability are decided by the solver for every strict weak order and every value multiset (ties included) within the size bounds.",
+    "level_note": "Trusted: go/ssa, gosym (witness-validated), z3.",
+}
